@@ -207,7 +207,7 @@ func Run(r *vh.Run) {
 		trng := rng.Fork()
 		net := chainx.RandomNet(trng)
 		t := chainx.GenTree(trng, net, chainx.GenCfg{Main: 4 + trng.Intn(10), Forks: 1 + trng.Intn(3), MaxBranch: 3 + trng.Intn(8),
-			Kinds: chainx.AllKinds(), TxPerBlk: 2, Corrupt: trng.Intn(2), Extend: 2})
+			Kinds: chainx.BasicKinds, TxPerBlk: 2, Corrupt: trng.Intn(2), Extend: 2})
 		for s := 0; s < 2; s++ {
 			RunTree(r, trng, fmt.Sprintf("tree%d/s%d", i, s), t, t.Schedule(trng))
 		}
